@@ -212,7 +212,7 @@ axiom these-header-names-are-canonical: canon("Content-Length") == "Content-Leng
 func (c *compression) compress(req *http.Request, resp *http.Response) (compressed bool)
   flag allocates
   requires c != nil && c.spec != nil && req != nil && resp != nil && resp.Header != nil && resp.Body != nil && ifaceVal(resp.Body) != 0
-  modifies resp.Body, resp.ContentLength, gzFed, gzClosed, rdRem, allof("map<string,[]string>#dom"), allof("map<string,[]string>#card"), allof("map<string,[]string>#val#arr"), allof("map<string,[]string>#val#len"), allof("map<string,[]string>#val#cap"), allof("elem<string>")
+  modifies resp.Body, resp.ContentLength, gzFed, gzClosed, rdRem, limUnder, allof("map<string,[]string>#dom"), allof("map<string,[]string>#card"), allof("map<string,[]string>#val#arr"), allof("map<string,[]string>#val#len"), allof("map<string,[]string>#val#cap"), allof("elem<string>")
   ensures an-uncompressed-response-is-left-alone: !compressed ==> resp.Body == old(resp.Body) && resp.ContentLength == old(resp.ContentLength) && (forall k string :: ((k in resp.Header) <==> old(k in resp.Header)) && resp.Header[k] == old(resp.Header[k]))
   ensures bodies-declared-shorter-than-minLength-are-left-alone: old(resp.ContentLength) != -1 && old(resp.ContentLength) < c.spec.MinLength ==> !compressed
   ensures a-compressed-response-declares-no-length: compressed ==> resp.ContentLength == -1 && !(canon("Content-Length") in resp.Header)
